@@ -26,6 +26,9 @@ ALL = ["sudoku", "slitherlink", "masyu", "yajilin", "nurikabe", "heyawake", "aka
        "shakashaka"]
 
 
+TIME_LIMIT = 90
+
+
 def expected_from(sols):
     if not sols:
         return False, {}
@@ -63,18 +66,138 @@ def compare(oracle, mod, inst):
     return None
 
 
+# ------------------------------------------------------------------ posted-program check (large boards)
+class _Tag:
+    def __init__(self, i):
+        self.i = i
+
+
+def probe_program(oracle, mod, inst):
+    """run the real solve_<puzzle> with the module's Solver replaced by a subclass whose solve() does not
+    solve: it keeps the posted program and tags every variable's .sol, so the oracle's run_real returns
+    {oracle key: tag} = which solver variable carries which answer cell"""
+    real = mod.Solver
+    holder = {}
+
+    class Probe(real):
+        def solve(self_, *a, **k):
+            holder["s"] = self_
+            for v in self_.variables:
+                v.sol = _Tag(v.id)
+            return True
+
+    mod.Solver = Probe
+    try:
+        is_sat, got = oracle.run_real(mod, inst)
+    finally:
+        mod.Solver = real
+    s = holder["s"]
+    keymap = {}
+    for k, t in got.items():
+        if not isinstance(t, _Tag):
+            raise RuntimeError("answer cell %r is not read from a solver variable" % (k,))
+        keymap[k] = t.i
+    return s, keymap
+
+
+def program_check(oracle, mod, inst, cands):
+    """cands: [(grid {key: value}, obeys: bool, label)] judged by the oracle's own rule checker.  Each grid is
+    substituted for the answer variables of the posted program (other variables existential, decided by z3 with
+    the reference semantics specs/den.py); acceptance must equal `obeys`.  Instances come with at most one
+    rule-obeying grid by construction, so any disagreement is visible in (is_sat, decided cells)."""
+    import z3
+    from specs import den
+    s, keymap = probe_program(oracle, mod, inst)
+    zv, bounds = den.declare(s.variables)
+    z = z3.Solver()
+    z.set("timeout", 20000)
+    z.add(bounds)
+    for c in s.constraints:
+        z.add(den.tz(c, zv))
+    not_key = [k for k, i in keymap.items() if not s.is_answer_key[i]]
+    if not_key:
+        return [dict(kind="program:answer-cell-not-an-answer-key", detail="cells %s are read from variables that were not registered as answer keys" % not_key[:4], label="keys")], 0
+    out = []
+    unknown = 0
+    for grid, obeys, label in cands:
+        z.push()
+        for k, v in grid.items():
+            var = zv[keymap[k]]
+            z.add(var == (z3.BoolVal(v) if isinstance(v, bool) else z3.IntVal(v)))
+        r = z.check()
+        z.pop()
+        if r == z3.unknown:
+            unknown += 1
+            continue
+        acc = r == z3.sat
+        if acc != obeys:
+            out.append(dict(kind="program:%s" % ("accepts-rule-breaking-grid" if acc else "rejects-rule-obeying-grid"), label=label,
+                            detail="the posted constraint program %s a grid that %s the rules (%s)" % (
+                                "accepts" if acc else "rejects", "obeys" if obeys else "breaks", label),
+                            grid={str(k): v for k, v in grid.items()}))
+    return out, unknown
+
+
+def _large_worker(args):
+    name, idx, tier, seed = args
+    out = dict(name=name, n=0, cands=0, mismatches=[], crash=None, unknown=0)
+    try:
+        load_repo()
+        oracle = importlib.import_module("specs.rules." + name)
+        mod = importlib.import_module(oracle.MODULE)
+        for j, (inst, cands) in enumerate(oracle.large_instances(tier, random.Random(seed * 7919 + 13))):
+            if j % LARGE_SPLIT != idx:
+                continue
+            out["n"] += 1
+            out["cands"] += len(cands)
+            try:
+                mms, unk = program_check(oracle, mod, inst, cands)
+            except Exception as e:
+                mms, unk = [dict(kind="program:exception:%s" % type(e).__name__, label="probe", detail="%s: %s" % (type(e).__name__, e))], 0
+            out["unknown"] += unk
+            for mm in mms:
+                mm["inst"] = inst
+                mm["cls"] = (oracle.classify(inst) if hasattr(oracle, "classify") else "any") + ":" + mm["label"].split("#")[0]
+                if len(out["mismatches"]) < 20:
+                    out["mismatches"].append(mm)
+    except Exception:
+        out["crash"] = traceback.format_exc()[-2000:]
+    return out
+
+
+LARGE_SPLIT = 4
+
+
 def _worker(args):
     name, insts = args
-    out = dict(name=name, n=0, mismatches=[], crash=None, nontrivial=0)
+    out = dict(name=name, n=0, mismatches=[], crash=None, nontrivial=0, timeouts=[])
     try:
         import warnings
         warnings.simplefilter("ignore")
         load_repo()
         oracle = importlib.import_module("specs.rules." + name)
         mod = importlib.import_module(oracle.MODULE)
+        import signal
+
+        class _TimeLimit(BaseException):
+            pass
+
+        def _alarm(sig, frm):
+            raise _TimeLimit()
+
+        signal.signal(signal.SIGALRM, _alarm)
         for inst in insts:
             out["n"] += 1
-            mm = compare(oracle, mod, inst)
+            # wall-clock budget per instance (solver and oracle together); exceeding it is UNDECIDED, never
+            # a violation -- the instances are sized so that the unchanged tree needs a small fraction of it
+            signal.setitimer(signal.ITIMER_REAL, TIME_LIMIT)
+            try:
+                mm = compare(oracle, mod, inst)
+            except _TimeLimit:
+                out["timeouts"].append(json.dumps(inst)[:160])
+                continue
+            finally:
+                signal.setitimer(signal.ITIMER_REAL, 0)
             if mm is not None and len(out["mismatches"]) < 20:
                 mm["inst"] = inst
                 mm["cls"] = oracle.classify(inst) if hasattr(oracle, "classify") else "any"
@@ -131,17 +254,36 @@ def run(rep, tier, seed, nproc=16):
         for i in range(k):
             tasks.append((name, insts[i::k]))
     per = {}
+    large = [(name, i, tier, seed) for name in covered
+             if hasattr(importlib.import_module("specs.rules." + name), "large_instances") for i in range(LARGE_SPLIT)]
     with ProcessPoolExecutor(nproc) as ex:
+        lf = [ex.submit(_large_worker, a) for a in large]
         for r in ex.map(_worker, tasks):
             p = per.setdefault(r["name"], dict(n=0, mismatches=[]))
             p["n"] += r["n"]
             p["mismatches"].extend(r["mismatches"])
             if r["crash"]:
                 rep.crashes.append("puzzle %s: %s" % (r["name"], r["crash"][-500:]))
+            for t in r["timeouts"]:
+                rep.undecide("puzzle %s: instance exceeded the %ds budget: %s" % (r["name"], TIME_LIMIT, t))
+        lcov = {}
+        for f in lf:
+            r = f.result()
+            if r["crash"]:
+                rep.crashes.append("puzzle %s (large boards): %s" % (r["name"], r["crash"][-500:]))
+            c = lcov.setdefault(r["name"], dict(instances=0, grids=0, undecided_grids=0))
+            c["instances"] += r["n"]
+            c["grids"] += r["cands"]
+            c["undecided_grids"] += r["unknown"]
+            rep.evaluations += r["cands"]
+            p = per.setdefault(r["name"], dict(n=0, mismatches=[]))
+            p["mismatches"].extend(r["mismatches"])
+        rep.coverage["large_boards_posted_program"] = lcov
+        for n, c in lcov.items():
+            if c["instances"] == 0 or c["grids"] == 0:
+                rep.crashes.append("puzzle %s: the large-board generator produced nothing" % n)
     for name, p in sorted(per.items()):
         rep.evaluations += p["n"]
-        for i in range(p["n"]):
-            pass
         rep.distinct.add(name)
         seen = set()
         for mm in p["mismatches"]:
@@ -149,7 +291,7 @@ def run(rep, tier, seed, nproc=16):
             if sig in seen:
                 continue
             seen.add(sig)
-            payload = dict(engine="puzzles", property="C11", puzzle=name, inst=mm["inst"], kind=mm["kind"], detail=mm["detail"])
+            payload = dict(engine="puzzles", property="C11", puzzle=name, inst=mm["inst"], kind=mm["kind"], detail=mm["detail"], grid=mm.get("grid"))
             rp = write_replay("C11", "%s_%s" % (name, mm["kind"]), payload)
             rep.violation(sig, "%s | %s | instance %s" % (name, mm["detail"], json.dumps(mm["inst"])[:300]), rp)
     rep.coverage["puzzles_covered"] = {n: per.get(n, {}).get("n", 0) for n in covered}
@@ -170,6 +312,14 @@ def replay(payload):
     load_repo()
     oracle = importlib.import_module("specs.rules." + payload["puzzle"])
     mod = importlib.import_module(oracle.MODULE)
+    if payload["kind"].startswith("program:"):
+        # re-derive the candidates with the oracle and re-evaluate them on the program the real code posts now
+        import ast as _ast
+        grid = {_ast.literal_eval(k): v for k, v in (payload.get("grid") or {}).items()}
+        cands = [(grid, oracle.obeys(payload["inst"], grid), "replayed grid")] if grid else []
+        mms, _ = program_check(oracle, mod, payload["inst"], cands)
+        print("replay %s (posted program) %s -> %s" % (payload["puzzle"], json.dumps(payload["inst"])[:160], [m["detail"] for m in mms] or "agrees"))
+        return 1 if mms else 0
     mm = compare(oracle, mod, payload["inst"])
     print("replay %s %s -> %s" % (payload["puzzle"], json.dumps(payload["inst"])[:200], mm or "agrees"))
     return 1 if mm else 0
